@@ -825,6 +825,67 @@ def _stability_histories(chk):
                 "K2 postconditions (closed histories, bounded-exhaustive)", [fn], "B4 exact evaluation", th(kind))
 
 
+_REPLAY_CM_MAP_DEGREE = """
+import warnings, logging
+warnings.filterwarnings("ignore"); logging.disable(logging.CRITICAL)
+import numpy as np
+from hiten import System
+from hiten.algorithms.poincare.centermanifold.options import CenterManifoldMapOptions
+from hiten.algorithms.poincare.core.options import IterationOptions, SeedingOptions
+from hiten.algorithms.types.options import IntegrationOptions, WorkerOptions
+def opts():
+    return CenterManifoldMapOptions(integration=IntegrationOptions(dt=1e-2, order=4, c_omega_heuristic=20, max_steps=2000),
+        iteration=IterationOptions(n_iter=2), seeding=SeedingOptions(n_seeds=3), workers=WorkerOptions(n_workers=1))
+cm = System.from_bodies("earth", "moon").get_libration_point(1).get_center_manifold(degree=4)
+m = cm.poincare_map(energy=0.3)
+a = m.compute(section_coord="q3", options=opts()).points.copy()
+cm.degree = 3
+b = m.compute(section_coord="q3", options=opts()).points.copy()
+cm2 = System.from_bodies("earth", "moon").get_libration_point(1).get_center_manifold(degree=3)
+c = cm2.poincare_map(energy=0.3).compute(section_coord="q3", options=opts()).points.copy()
+print("degree 4:", a[:2].tolist()); print("same map after degree = 3:", b[:2].tolist()); print("fresh degree-3 map:", c[:2].tolist())
+stale = a.shape == b.shape and np.array_equal(a, b) and not (b.shape == c.shape and np.allclose(b, c))
+print("CONFIRMED" if stale else "NOT-CONFIRMED")
+"""
+
+
+def _cm_map_degree_history(chk):
+    """a centre-manifold map shares the centre manifold with its owner: after the degree of that manifold changes the map
+    must not hand out the return map computed with the old Hamiltonian"""
+    import hiten.algorithms.types.services.base as sb
+    import hiten.algorithms.types.services.maps as mp
+    from pyvc.core import real_self
+
+    def th():
+        import itertools
+        for hist in itertools.product((3, 4, 5), repeat=3):
+            cm = _Obj(degree=hist[0])
+            dom = _Obj(_energy=0.3, _center_manifold=cm, _last_map=None)
+            gen_log = []
+
+            def generate(domain_obj, options, gen_log=gen_log):
+                d = domain_obj._center_manifold.degree
+                gen_log.append(d)
+                return _Obj(points=_np.array([[float(d), 0.0]]), states=_np.zeros((1, 4)), times=_np.array([0.0]), labels=("q2", "p2"))
+            svc = real_self(mp._CenterManifoldMapDynamicsService, _energy=0.3, _center_manifold=cm,
+                            _map_options=_Obj(to_dict=lambda: {"n_iter": 2}))
+            mp._MapDynamicsServiceBase.__init__(svc, dom)
+            svc._generator = _Obj(update_config=lambda **k: None, generate=generate)
+            svc._section_coord = None
+            seen = []
+            for d in hist:
+                cm.degree = d
+                r = mp._CenterManifoldMapDynamicsService.compute(svc, section_coord="q3")
+                seen.append(float(_np.asarray(r.points)[0][0]))
+            if seen != [float(d) for d in hist]:
+                raise Refuted("centre-manifold map: after the degree of the shared centre manifold changes, compute() returns the "
+                              "map of another degree", f"degree history {list(hist)}: maps returned were computed at degrees {seen}",
+                              replay=_REPLAY_CM_MAP_DEGREE, inputs={"degree_history": list(hist)})
+    chk.obl("centre-manifold map compute(): over all degree histories of length 3 of the shared centre manifold the returned "
+            "map is the one computed at the current degree", "K2 postconditions (closed histories, bounded-exhaustive)",
+            ["hiten.algorithms.types.services.maps:_CenterManifoldMapDynamicsService.compute"], "B4 exact evaluation", th)
+
+
 def _primitives(chk):
     import hiten.algorithms.types.services.base as sb
 
@@ -990,6 +1051,7 @@ def run(chk):
     _handed_out_objects(chk)
     _correct_history(chk)
     _stability_histories(chk)
+    _cm_map_degree_history(chk)
     _pickle_histories(chk)
     if chk.tier == "thorough":
         _io_witness(chk)
